@@ -30,15 +30,34 @@ class UtilsMixin(MetadataDependent):
 
     @cache
     def results_for_node(self, node: cst.CSTNode) -> list[Result]:
-        pos_to_match = self.node_position(node)
+        positions = [self.node_position(node)]
+        if (parenthesized := self._parenthesized_position(node)) is not None:
+            positions.append(parenthesized)
         return (
             [
                 result
                 for result in self.results
-                if result.match_location(pos_to_match, node)
+                if any(result.match_location(pos, node) for pos in positions)
             ]
             if self.results
             else []
+        )
+
+    def _parenthesized_position(self, node: cst.CSTNode) -> CodeRange | None:
+        """
+        The position of an expression together with its own parentheses.
+
+        libcst leaves them out of the position of `(f(x))`; detection tools
+        report the parenthesized expression.
+        """
+        lpar, rpar = getattr(node, "lpar", None), getattr(node, "rpar", None)
+        if not (isinstance(lpar, (list, tuple)) and isinstance(rpar, (list, tuple))):
+            return None
+        if not (lpar and rpar):
+            return None
+        return CodeRange(
+            start=cast(CodeRange, self.get_metadata(PositionProvider, lpar[0])).start,
+            end=cast(CodeRange, self.get_metadata(PositionProvider, rpar[-1])).end,
         )
 
     def filter_by_path_includes_or_excludes(self, pos_to_match):
